@@ -25,6 +25,7 @@ import (
 	metav1 "k8s.io/apimachinery/pkg/apis/meta/v1"
 	apimachineryvalidation "k8s.io/apimachinery/pkg/util/validation"
 	"k8s.io/apimachinery/pkg/util/validation/field"
+	"k8s.io/client-go/tools/cache"
 	apivalidation "k8s.io/kubernetes/pkg/apis/core/validation"
 	"k8s.io/utils/clock"
 
@@ -75,6 +76,34 @@ func (v *Validator) ValidateJobConfig(rjc *v1alpha1.JobConfig) field.ErrorList {
 	allErrs := field.ErrorList{}
 	allErrs = append(allErrs, validation.ValidateMaxLength(rjc.Name, maxJobConfigNameLen, field.NewPath("metadata").Child("name"))...)
 	allErrs = append(allErrs, v.ValidateJobConfigSpec(&rjc.Spec, field.NewPath("spec"))...)
+	if len(allErrs) == 0 {
+		allErrs = append(allErrs, v.validateCronScheduleForJobConfig(rjc, field.NewPath("spec", "schedule", "cron"))...)
+	}
+	return allErrs
+}
+
+// validateCronScheduleForJobConfig validates that the cron schedule can be
+// parsed the way the cron scheduler does, i.e. hashed with the JobConfig's own
+// namespaced name. Hashed fields (H) depend on that name, so an expression that
+// parses with an empty hash ID may still be unparsable for this JobConfig.
+func (v *Validator) validateCronScheduleForJobConfig(rjc *v1alpha1.JobConfig, fldPath *field.Path) field.ErrorList {
+	allErrs := field.ErrorList{}
+	schedule := rjc.Spec.Schedule
+	if schedule == nil || schedule.Cron == nil {
+		return allErrs
+	}
+	cfg, err := v.ctrlContext.Configs().Cron()
+	if err != nil {
+		return append(allErrs, field.InternalError(fldPath, errors.Wrapf(err, "cannot load cron config")))
+	}
+	hashID, err := cache.MetaNamespaceKeyFunc(rjc)
+	if err != nil {
+		return append(allErrs, field.InternalError(fldPath, err))
+	}
+	if _, err := cron.NewExpressionFromCronSchedule(schedule.Cron, cron.NewParserFromConfig(cfg), hashID); err != nil {
+		allErrs = append(allErrs, field.Invalid(fldPath, schedule.Cron.GetExpressions(),
+			fmt.Sprintf("cannot parse cron schedule for this JobConfig: %v", err)))
+	}
 	return allErrs
 }
 
